@@ -55,8 +55,8 @@ for k in $(seq 1 $N); do
 done
 wait
 mkdir -p /verif/.build
-cat $base/*/log > /verif/.build/benign.log
+cat $base/*/log > /verif/.build/${BENIGN_LOG:-benign.log}
 rm -rf /verif/.build/benign-replays; [ -d $base/keep ] && cp -r $base/keep /verif/.build/benign-replays
 for k in $(seq 1 $N); do git -C /repo worktree remove --force $base/$k/repo; done
 git -C /repo worktree prune; rm -rf $base
-grep -c silent /verif/.build/benign.log; grep -B0 -A6 ALARM /verif/.build/benign.log | head -60
+grep -c silent /verif/.build/${BENIGN_LOG:-benign.log}; grep -B0 -A6 ALARM /verif/.build/${BENIGN_LOG:-benign.log} | head -60
